@@ -8,7 +8,8 @@ THEOREMS = [("Sylvia.Thm.C10", "C10." + t) for t in
             ["executor_msg_fields", "executor_routes", "querier_routes", "builder_defaults", "build2_adds_salt", "last_writer_wins",
              "setters_commute", "setters_fold", "admin_helpers"]] + \
            [("Sylvia.Thm.C02", "C02.dispatch_exact"), ("Sylvia.Thm.C05Gen", "C05.parts_faithful_closed"), ("Sylvia.Thm.PublishedFn", "PublishedFn.serde_snake_case_eq")] + \
-           [("Sylvia.Thm.C10Builder", "C10B." + t) for t in ["apply_eq", "new_build", "build_eq", "build2_eq", "last_writer_wins", "setters_commute", "applyAll_eq", "built_fields"]]
+           [("Sylvia.Thm.C10Builder", "C10B." + t) for t in ["apply_eq", "new_build", "build_eq", "build2_eq", "last_writer_wins", "setters_commute", "applyAll_eq", "built_fields"]] + \
+           [("Sylvia.Thm.HandlesFn", "HandlesFn." + t) for t in ["executor_msg", "withAll_eq", "admin_helpers"]]
 
 
 def hx(s):
@@ -32,6 +33,11 @@ def run(ctx):
     ctx.cov["function_translator_builder"] = {"source": "sylvia/src/builder/instantiate.rs", "problems": builder_problems}
     if builder_problems:
         ctx.obligation_failed("function-translator(builder)", "; ".join(builder_problems)[:1500])
+    # ... and the remote handle / executor builder of sylvia/src/types.rs -> Extracted/HandleFns.lean (Thm/HandlesFn.lean)
+    handle_problems = rs2lean.regenerate("handles")
+    ctx.cov["function_translator_handles"] = {"source": "sylvia/src/types.rs (Remote, ExecutorBuilder)", "problems": handle_problems}
+    if handle_problems:
+        ctx.obligation_failed("function-translator(handles)", "; ".join(handle_problems)[:1500])
     c.prove(ctx, sorted({m for m, _ in THEOREMS}), THEOREMS)
     progs, exes = l2.get_corpus(ctx)
     rng = random.Random(ctx.seed * 41 + 10)
